@@ -426,27 +426,39 @@ def spec_nodes(spec, prefix=""):
 
 
 def class_of(node, attr, value, is_dataset=False, dsname=None):
-    """finding class of a failing attribute (None = outside every listed class)"""
+    """finding class of a failing attribute (None = outside every listed class).  C08.attr_named_like_child after
+    the repair of add_attributes: the attribute has the name of a child that has its OWN container in the DAS (child
+    of a Structure / Sequence / the Dataset: the container overwrites it in the parsed dict), or it is a DICT named
+    like a Grid member / like the dataset (in a DAS such a container IS the member's / the dataset's container).
+    Plain attributes named like a Grid member or like the dataset are outside the class: they must survive."""
     if has_short_list(value):
         return K_SHORT
     names = [c["name"] for c in node["children"]]
-    if attr in names or (is_dataset and attr == dsname):
+    if attr in names and (is_dataset or node["kind"] != "g" or isinstance(value, dict)):
+        return K_COLLIDE
+    if is_dataset and attr == dsname and isinstance(value, dict):
         return K_COLLIDE
     return None
 
 
-def oracle_served(ctx, P, spec, client, err):
+def ds_self_collide(spec):
+    """a dict-valued global attribute named like the dataset is read as the dataset's own container and spilled
+    over the other globals"""
+    return isinstance(spec["attrs"].get(spec["name"]), dict)
+
+
+def oracle_served(ctx, P, spec, client, err, case=None):
     """judge the client's attributes against the source maps; records failures, returns their number"""
-    case = {"kind": "served", "spec": spec}
+    case = case or {"kind": "served", "spec": spec}
     n0 = len(ctx.oracle_failures) + sum(ctx.known_hits.values())
     if client is None:
-        cls = K_COLLIDE if spec["name"] in spec["attrs"] else None
+        # the repaired add_attributes never raises: a failure to serve / parse / attach is in no listed class
         ctx.oracle_fail("serving / parsing / attaching the DAS raised", case, err, "client dataset with attributes",
-                        cls=cls)
+                        cls=None)
         return 1
-    # a global attribute named like the dataset itself is popped by the flat-id lookup of the dataset node and
-    # spilled over the other globals: every global-level difference of such a dataset is in the collision class
-    ds_collide = spec["name"] in spec["attrs"]
+    # a dict-valued global attribute named like the dataset itself is popped by the flat-id lookup of the dataset node
+    # and spilled over the other globals: every global-level difference of such a dataset is in the collision class
+    ds_collide = ds_self_collide(spec)
     amb = ambiguous_globals(spec["attrs"])
     exp = expected_globals(spec["attrs"])
     got = client.attributes
@@ -476,9 +488,6 @@ def oracle_served(ctx, P, spec, client, err):
         for k in sorted(set(src) | set(got)):
             if k not in src or k not in got:
                 cls = class_of(node, k, src.get(k)) if k in src else None
-                if k not in src and any(has_short_list(v) or kk in [c["name"] for c in node["children"]]
-                                        for kk, v in src.items()):
-                    cls = K_COLLIDE        # by-product of `dict.update(str/list)` on a colliding attribute
                 ctx.oracle_fail("attribute %s on variable" % ("lost" if k in src else "appeared"), case,
                                 {"var": i, "name": k, "client": repr(got.get(k))},
                                 {"var": i, "name": k, "source": repr(src.get(k))}, cls=cls)
@@ -503,6 +512,75 @@ def serve(P, spec):
         return client, None
     except Exception as e:
         return None, type(e).__name__
+
+
+# ------------------------------------------------------------------------------------------------ histories
+def gen_history(rng):
+    """several datasets (some sharing one DAS text: the same dataset served by two applications, and the same tree
+    and attributes under ANOTHER dataset name - the DAS text does not contain the dataset's name), opened several
+    times each in an interleaved order"""
+    pool = []
+    for _ in range(rng.randint(1, 3)):
+        spec = gen_dataset(rng, small=rng.random() < 0.7)
+        pool.append(spec)
+        r = rng.random()
+        if r < 0.35:
+            pool.append(copy.deepcopy(spec))
+        elif r < 0.7:
+            twin = copy.deepcopy(spec)
+            taken = set(spec["attrs"]) | {c["name"] for c in spec["children"]} | {spec["name"]}
+            twin["name"] = next(n for n in ("twin", "other_1", "d2", "copy", "zz9") if n not in taken)
+            pool.append(twin)
+    order = [rng.randrange(len(pool)) for _ in range(rng.randint(2, 4) + len(pool))]
+    return pool, order
+
+
+def run_history(P, pool, order, judge):
+    """open the datasets of `pool` in the given order (one application per dataset, living for the whole history);
+    `judge(step, index, client, err)` sees every opening"""
+    apps = []
+    for spec in pool:
+        try:
+            apps.append(P.BaseHandler(build(P, spec)))
+        except Exception as e:
+            apps.append(e)
+    for step, i in enumerate(order):
+        client, err = None, None
+        try:
+            if isinstance(apps[i], Exception):
+                raise apps[i]
+            client = P.open_url("http://localhost:8001/", application=apps[i])
+        except Exception as e:
+            err = type(e).__name__
+        judge(step, i, client, err)
+
+
+def history_stream(ctx, P, n, rt, at):
+    rng = ctx.rng("history")
+    for _ in range(n):
+        pool, order = gen_history(rng)
+        texts = []
+        for spec in pool:
+            try:
+                texts.append("".join(P.das(build(P, spec))))
+            except Exception:
+                texts.append(None)
+        shared = len(set(t for t in texts if t is not None)) < len(pool)
+        ctx.count(("history", repr((pool, order))), True,
+                  tag="history:%d-datasets:%s" % (len(pool), "shared-text" if shared else "distinct-texts"))
+
+        def judge(step, i, client, err):
+            spec = pool[i]
+            meta = {"stream": "history", "spec": spec, "step": step, "order": order}
+            if client is not None:
+                impl = canon_client(P, client)
+                # the model's client is a function of (tree, DAS text) alone: the same line whatever came before
+                rt.append(("das-roundtrip " + ds_sexp(spec), impl, meta))
+                if texts[i] is not None:
+                    at.append(("das-attach %s %s %s" % (hx(client.name), children_sexp(spec), hx(texts[i])), impl, meta))
+            oracle_served(ctx, P, spec, client, err,
+                          case={"kind": "history", "pool": pool, "order": order[:step + 1], "step": step})
+        run_history(P, pool, order, judge)
 
 
 def shrink(P, spec, fails):
@@ -898,6 +976,8 @@ def explore(ctx, P, tier, search=False):
     for i in range(n // 6):
         served_case(ctx, P, gen_dataset(rng, mode={"collide"}, small=(i % 2 == 0)), "collide", pr, pa, at, rt,
                     do_shrink=False)
+    # (c') histories: several openings, several datasets sharing DAS text, interleaved
+    history_stream(ctx, P, n // 12, rt, at)
     correspond(ctx, "das() text vs dasText", pr)
     correspond(ctx, "parse_das vs dasParse on served text", pa)
     correspond(ctx, "client attributes vs addAttributes on the served text", at)
@@ -955,6 +1035,9 @@ def replay(payload):
     if case["kind"] == "served":
         c, e = serve(P, case["spec"])
         oracle_served(probe, P, case["spec"], c, e)
+    elif case["kind"] == "history":
+        run_history(P, case["pool"], case["order"],
+                    lambda step, i, c, e: oracle_served(probe, P, case["pool"][i], c, e))
     else:
         tmpl, impl, err = attach_foreign(P, case["spec"], case["text"])
         oracle_foreign(probe, P, case, tmpl, err, case["exp_vars"], case["exp_glob"])
